@@ -51,8 +51,8 @@ def global_shape(s: int, k: int, complex_=True):
 # ---- Ident.tla: catalogue of modes ------------------------------------------------------
 # frequencies [Hz] at fs = 100 Hz (all below 0.45 fs), damping 0.2 % .. 8 %, shapes over 8 global sensors
 IDENT_FS = 100.0
-MODE_F = [2.0, 5.5, 9.25, 13.0, 17.75, 22.5, 27.0, 31.5, 36.0, 41.0]
-MODE_XI = [0.002, 0.01, 0.03, 0.005, 0.08, 0.02, 0.004, 0.05, 0.015, 0.06]
+MODE_F = [2.0, 5.5, 9.25, 13.0, 17.75, 22.5, 27.0, 31.5, 36.0, 41.0, 13.3]   # mode 11 sits 2.3 % above mode 4 (inside the default rtol of mpe)
+MODE_XI = [0.002, 0.01, 0.03, 0.005, 0.08, 0.02, 0.004, 0.05, 0.015, 0.06, 0.012]
 # shape of mode k (1-based) at sensor s (1-based); zeros are exact (they drive the Observable precondition)
 MODE_COMPLEX = {3, 5, 6, 8, 10}
 
